@@ -157,6 +157,9 @@ def normalise_candidate(sim, c):
     if sig.startswith('bt:'):
         pcs = [int(x, 16) for x in sig.split(':')[1:] if x]
         c['sig'] = 'alloc@' + alloc_site(sim, pcs)
+    elif sig.startswith('loopbt:'):
+        pcs = [int(x, 16) for x in sig.split(':')[1:] if x]
+        c['sig'] = 'loop@' + alloc_site(sim, pcs)
     elif sig.startswith('pc:'):
         pc = int(sig[3:], 16)
         fr = symbolize(sim, [pc])[0]
@@ -289,7 +292,8 @@ ENTRY_NAMES = ["GetEncodedGeometryType", "DecodeMeshFromBuffer",
                "DecodePointCloudFromBuffer", "DecodeBufferToGeometry(Mesh)",
                "DecodeBufferToGeometry(PointCloud)",
                "Decode*FromBuffer+SkipAttributeTransform",
-               "KeyframeAnimationDecoder::Decode"]
+               "KeyframeAnimationDecoder::Decode",
+               "DecodeBufferToGeometry x2 (same object)"]
 
 
 def minimise(sim, engine, plan, prop, cls, sig, outdir, entry_name=None, budget=400):
